@@ -111,6 +111,8 @@ Section Prog.
   (* locked blocks, innermost (largest pre-order index) first *)
   Definition locked_blocks (s : S) : list nat :=
     rev (filter (fun n => is_block n && lock_acquired (st s n)) (seq 0 (length p))).
+  (* the blocks End block / End blocks work on: locked and not yet ended *)
+  Definition active_blocks (s : S) : list nat := filter (fun b => negb (block_ended (st s b))) (locked_blocks s).
   Fixpoint descendants_fuel (fuel : nat) (n : nat) : list nat :=
     match fuel with
     | O => []
@@ -234,13 +236,13 @@ Section Prog.
         else if lock_acquired (st s n) then Go (FKidsEntry n :: FBlkC n :: k) s
         else Yield RCont (FBlkA n :: k) s
     | KEndBlock =>
-        let s1 := match locked_blocks s with
+        let s1 := match active_blocks s with
                   | [] => s
                   | old :: rest => end_block (with_tag s (match rest with b :: _ => Some b | [] => None end)) old
                   end in
         Yield REnd (FRet :: k) (mark_completed (complete s1 n) n)
     | KEndBlocks =>
-        let s1 := fold_left end_block (locked_blocks s) s in
+        let s1 := fold_left end_block (active_blocks s) s in
         Yield REnd (FRet :: k) (mark_completed (complete (with_tag s1 None) n) n)
     | KWait dur =>
         let start := match wait_start (st s n) with Some w => w | None => e_time e end in
